@@ -56,7 +56,11 @@ class Recorder:
             if v is None:
                 v = self._vals[id(value)] = len(self._vals) + 1
                 self._keep.append(value)
-        self.events.append({"o": o, "p": "%s.%s" % (type(obj).__name__, name), "k": kind, "v": v})
+        # `name` is the getter's qualified name (<defining class>.<property>): an overriding
+        # property and the inherited one it calls through super() are different properties
+        # of the model although they share the instance's cache slot
+        p = name if "." in name else "%s.%s" % (type(obj).__name__, name)
+        self.events.append({"o": o, "p": p, "k": kind, "v": v})
 
 
 def install(rec):
@@ -300,7 +304,7 @@ def replay_behaviour(beh, resp0, xf0, rec_hook=None):
     return problems, drift
 
 
-def random_schedule_problems(scn, rec, cfg, rng, length, recorder):
+def random_schedule_problems(scn, rec, cfg, rng, length, recorder, only=None):
     """Direction B(i): a long random schedule over EVERY public property found by
     reflection, on all partitions of two cubes sharing the argument objects"""
     from cr.cube.cube import Cube
@@ -310,7 +314,11 @@ def random_schedule_problems(scn, rec, cfg, rng, length, recorder):
     c2 = Cube(resp, transforms=xf)
     fresh_cube = Cube(copy.deepcopy(resp0), transforms=copy.deepcopy(xf0))
     fparts = fresh_cube.partitions
-    names = relation.public_props(fparts[0]) + ["row_order", "column_order"]
+    # every public property: also those the re-index relation of C05 leaves out
+    names = relation.public_props(fparts[0], skip=()) + ["row_order", "column_order"]
+    if only:
+        # a schedule concentrated on a few properties reads each of them many times
+        names = [n for n in names if only(n)] or names
     fresh = {}
     problems = []
     for _ in range(length):
@@ -453,7 +461,10 @@ def run_check(tier, seed, t0):
             if hook_ok:
                 install(rec)
             try:
-                probs = random_schedule_problems(s, r, c, rng, 120 if tier == "quick" else 400, rec)
+                probs = random_schedule_problems(
+                    s, r, c, rng, 120 if tier == "quick" else 400, rec,
+                    only=(lambda n: n.startswith("smoothed") or n in ("counts", "column_proportions"))
+                    if (bad and s is bad[0] and rep % 2 == 0) else None)
             finally:
                 if hook_ok:
                     install(None)
